@@ -14,7 +14,11 @@ The model follows the Go control flow function by function; names are the Go nam
   * `validateNumberRange` let NaN through (every comparison with NaN is false);
   * `processNamedField` under `WithFromArray` called `reflect.TypeOf(nil).Kind()` on a null value (panic);
   * `generateMap` stored non-pointer values into maps with pointer element type (`SetMapIndex` panic) and
-    `fillSlice` formatted its error with `reflect.Value.Type` of a nil map value (panic).
+    `fillSlice` formatted its error with `reflect.Value.Type` of a nil map value (panic);
+  * (round 2) pointers to slices and maps: `fillSlice` / `fillMap` / `fillSliceWithDefault` were handed the pointer
+    type, so `*[]T` with `[]`, `*[]string` with a default, `*map[string]T` with any input (even absent) and
+    `[]*[]T` with a non-null element panicked (`reflect.Set` / `reflect.Type.Key`); the repaired code fills the
+    container and points to it.  Where the pinned behaviour was not replayed the pinned model answers `outside`.
 -/
 namespace GoZero.C08
 
@@ -683,10 +687,12 @@ def resolveOpts (c : Cfg) (po : Option Opts) (key : Str) (m : Obj) : Except Err 
   | none => .ok none
   | some o => (toOptionsWithContext c o key m).map some
 
-/-- options the model does not follow: `env=` (process environment) and `inherit` (parent lookups) -/
+/-- options the model does not follow: `inherit` (parent lookups).  `env=NAME` is followed for an *unset* variable
+(`proc.Env` returns the empty string and the field is processed as if the option was absent); a set variable is
+outside the model (assumption: the harness only names variables that are not set). -/
 def optOutside (o : Option Opts) : Bool :=
   match o with
-  | some o => !o.envVar.isEmpty || o.inherit
+  | some o => o.inherit
   | none => false
 
 /-- `processField` / `processNamedField` for one field against the object `m`; the type-directed
@@ -776,7 +782,7 @@ def derefKind : Ty → Option Kind
   | .prim k => some k
   | _ => none
 
-/-- pointer to slice / pointer to map: not followed by the model -/
+/-- pointer to slice / pointer to map: the pinned commit mishandled them (see header) -/
 def Ty.isContainer : Ty → Bool
   | .slice _ => true
   | .map _ => true
@@ -789,8 +795,11 @@ def strList : List Str → VList
 
 /-- `setValueFromString(kind, value, default)` through `ensureValue` (allocates every pointer level);
 `[]string` defaults go through `fillSliceWithDefault` -/
-def defaultVal : Ty → Str → Except Err Val
-  | .ptr t, d => if t.isContainer then .error .outside else (defaultVal t d).map .ptr
+def defaultVal (c : Cfg) : Ty → Str → Except Err Val
+  | .ptr t, d =>
+    -- pinned commit: `fillSlice` on the pointer value (`reflect.Set` panic)
+    if c.pinned && t.isContainer then (match t with | .slice (.prim .string) => .error .panic | _ => .error .outside)
+    else (defaultVal c t d).map .ptr
   | .prim k, d => convertFromString k d
   | .slice (.prim .string), d =>
     .ok (if (parseGroupedSegments d).isEmpty then .nil else .list (strList (parseGroupedSegments d)))
@@ -801,7 +810,13 @@ mutual
 /-- `processNamedFieldWithValue` below the nil test: dispatch on the dereferenced kind; pointers are
 allocated on the way back (`SetValue`). -/
 def withValue (c : Cfg) (o : Option Opts) : Ty → J → Except Err Val
-  | .ptr t, j => if t.isContainer then .error .outside else (withValue c o t j).map .ptr
+  | .ptr t, j =>
+    if c.pinned && t.isContainer then
+      (match t, j with
+       | .slice _, .arr [] => .error .panic          -- `value.Set(MakeSlice(SliceOf(fieldType.Elem())))`
+       | .map _, _ => .error .panic                  -- `fieldType.Key()` on a pointer type
+       | _, _ => .error .outside)
+    else (withValue c o t j).map .ptr
   | .prim k, j => primWithValue c o k j
   | .struct fs, j =>
     match j with
@@ -823,7 +838,9 @@ def withValue (c : Cfg) (o : Option Opts) : Ty → J → Except Err Val
 
 /-- one non-null element of a slice (`fillSlice` loop body / `fillSliceValue`) -/
 def elemValue (c : Cfg) : Ty → J → Except Err Val
-  | .ptr t, j => if t.isContainer then .error .outside else (elemValue c t j).map .ptr
+  | .ptr t, j =>
+    if c.pinned && t.isContainer then .error .panic   -- `fillSlice(dereffedBaseType, conv.Index(i))`: `reflect.Set` panic
+    else (elemValue c t j).map .ptr
   | .prim k, j =>
     match j with
     | .num s => convertFromString k s
@@ -849,7 +866,7 @@ def elemValue (c : Cfg) : Ty → J → Except Err Val
 `SetMapIndexValue`, a null for a slice element type is a type mismatch) -/
 def mapElemValue (c : Cfg) : Ty → J → Except Err Val
   | .ptr t, j =>
-    if t.isContainer then .error .outside
+    if c.pinned && t.isContainer then .error .outside
     else if c.pinned && (derefKind t).isSome then
       (match mapElemValue c t j with | .error e => .error e | .ok _ => .error .panic)
     else (mapElemValue c t j).map .ptr
@@ -875,7 +892,9 @@ def mapElemValue (c : Cfg) : Ty → J → Except Err Val
 
 /-- `processNamedFieldWithoutValue` for a field that is neither defaulted nor optional -/
 def absentRequired (c : Cfg) : Ty → Except Err Val
-  | .ptr t => if t.isContainer then .error .outside else (absentRequired c t).map .ptr
+  | .ptr t =>
+    if c.pinned && t.isContainer then (match t with | .map _ => .error .panic | _ => .error .outside)
+    else (absentRequired c t).map .ptr
   | .prim _ => .error .notSet
   | .struct fs =>
     match structRequired fs with
@@ -889,7 +908,7 @@ def unmFields (c : Cfg) : Fields → Obj → Except Err VFields
   | .nil, _ => .ok .nil
   | .cons name tag t rest, m =>
     match fieldCore c name tag t.isSlice m (fun o j => withValue c o t j) (fun _ => absentRequired c t)
-            (defaultVal t) (zero t) with
+            (defaultVal c t) (zero t) with
     | .error e => .error e
     | .ok v =>
       match unmFields c rest m with
@@ -906,5 +925,68 @@ def unmarshal (c : Cfg) (ty : Ty) (j : J) : Except Err Val :=
     | .arr _ => .error .mismatch
     | _ => .error .unsupported
   | _ => .error .outside
+
+/-! ## rest/httpx.Parse: path, form, header and JSON body unmarshalers on one target -/
+
+def httpCfgPath (pinned : Bool) : Cfg := { fromString := true, pinned := pinned }
+def httpCfgForm (pinned : Bool) : Cfg := { fromString := true, fromArray := true, pinned := pinned }
+def httpCfgHeader (pinned : Bool) : Cfg := { fromString := true, canonical := true, pinned := pinned }
+def httpCfgJson (pinned : Bool) : Cfg := { pinned := pinned }
+
+/-- tags of a request struct are written `key|value` (one tag key per field) -/
+def splitTag (tv : Str) : Str × Str := (tv.takeWhile (· ≠ '|'), (tv.dropWhile (· ≠ '|')).drop 1)
+
+/-- the fields as the unmarshaler with tag key `key` sees them: fields tagged with another key are skipped (`usingDifferentKeys`) -/
+def viewFields (key : Str) : Fields → Fields
+  | .nil => .nil
+  | .cons n tag t rest =>
+    .cons n (match tag with
+             | none => none
+             | some tv => if (splitTag tv).1 = key then some (splitTag tv).2 else none) t (viewFields key rest)
+
+def stripArraySuffix (k : Str) : Str :=
+  if "][".toList.isPrefixOf k.reverse then (k.reverse.drop 2).reverse else k
+
+/-- `GetFormValues`: empty values are ignored, a name without values left is dropped, a trailing `[]` of the name is cut;
+every value list is handed over as a `[]string` -/
+def formParams : List (Str × List Str) → Obj
+  | [] => []
+  | (k, vs) :: rest =>
+    if (vs.filter (fun v => !v.isEmpty)).isEmpty then formParams rest
+    else (stripArraySuffix k, .arr ((vs.filter (fun v => !v.isEmpty)).map .str)) :: formParams rest
+
+/-- `encoding.ParseHeaders`: a single value is handed over as a string, several as a `[]string`
+(net/http has canonicalised the names) -/
+def headerParams : List (Str × List Str) → Obj
+  | [] => []
+  | (_, []) :: rest => headerParams rest
+  | (k, [v]) :: rest => (canonKey k, .str v) :: headerParams rest
+  | (k, vs) :: rest => (canonKey k, .arr (vs.map .str)) :: headerParams rest
+
+/-- every field keeps the value of the unmarshaler that owns its tag key -/
+def mergeViews : Fields → VFields → VFields → VFields → VFields → VFields
+  | .cons n tag _ rest, .cons _ v1 r1, .cons _ v2 r2, .cons _ v3 r3, .cons _ v4 r4 =>
+    let k := match tag with | some tv => (splitTag tv).1 | none => []
+    .cons n (if k = "path".toList then v1 else if k = "form".toList then v2 else if k = "header".toList then v3 else v4)
+      (mergeViews rest r1 r2 r3 r4)
+  | _, _, _, _, _ => .nil
+
+/-- `httpx.Parse(r, &v)`: ParsePath, ParseForm, ParseHeaders, ParseJsonBody in this order, the first error wins;
+without a JSON body the json unmarshaler runs on the empty object -/
+def httpParse (pinned : Bool) (fs : Fields) (p : Obj) (f h : List (Str × List Str)) (b : Option J) :
+    Except Err VFields :=
+  match unmFields (httpCfgPath pinned) (viewFields "path".toList fs) p with
+  | .error e => .error e
+  | .ok v1 =>
+    match unmFields (httpCfgForm pinned) (viewFields "form".toList fs) (formParams f) with
+    | .error e => .error e
+    | .ok v2 =>
+      match unmFields (httpCfgHeader pinned) (viewFields "header".toList fs) (headerParams h) with
+      | .error e => .error e
+      | .ok v3 =>
+        match unmarshal (httpCfgJson pinned) (.struct (viewFields "json".toList fs)) (b.getD (.obj [])) with
+        | .ok (.struct v4) => .ok (mergeViews fs v1 v2 v3 v4)
+        | .ok _ => .error .outside
+        | .error e => .error e
 
 end GoZero.C08
